@@ -1,12 +1,22 @@
 (** LaunchRun: executable agreement predicates evaluated (vm_compute) by the generated cases
     files of the C08 correspondence check (harness/py/c08.py). *)
 From stdpp Require Import gmap.
+From Coq Require Import Uint63.
 From Drummer.Model Require Import Base DB Launch.
 Local Open Scope N_scope.
 
-(** constants and the tail of the draw scripts, so that the generated files need few numerals *)
+(** Numbers in the generated cases files.  coqc interprets an [N] numeral by running a Gallina
+    conversion (about 0.15 ms per numeral, 1.5 ms for 19 digits); primitive integers are read natively
+    (0.04 ms).  The generated files therefore write numbers below 2^63 as primitive integers wrapped in
+    [n] / [ns] and larger ones relative to the constants two62/two63/two64. *)
+Definition n (x : int) : N := Z.to_N (Uint63.to_Z x).
+Definition ns (l : list int) : list N := map n l.
 Definition two62 : N := 4611686018427387904.
-Definition rampN (n : nat) : list N := map N.of_nat (seq 0 n).
+Definition bel (b : N) (k : int) : N := b - n k.
+Definition abv (b : N) (k : int) : N := b + n k.
+(** the tail of the draw scripts: 0, 1, ..., k-1 *)
+Definition rampN (k : nat) : list N := map N.of_nat (seq 0 k).
+Definition rampI (k : int) : list N := rampN (Z.to_nat (Uint63.to_Z k)).
 
 (** a NodeHost as the executor builds it: address, region, last tick, hosted shard ids *)
 Definition mkH (a r t : N) (ss : list N) : hostspec := mkHost a 0 r t [] (list_to_set ss).
